@@ -18,4 +18,12 @@ PROPS = {
                 'every transition executes the real function and is compared with an array reference model; a state is non-trivial when some list is non-empty',
         'assumptions': ASSUME_E1,
     },
+    'C13': {
+        'level': 'model_checking',
+        'jobs': [{'world': 'slist', 'src': 'worlds/slist_world.c', 'lib': ['slist.c'], 'flavours': RELDBG_ALWAYS}],
+        'rule': 'breadth-first search to closure over all operation sequences of the slist API (push_back and pop_front applied in EVERY reachable state, '
+                'including empty lists and right after the last element was erased/reversed/sorted/concatenated/swapped) on 2-3 lists and a pool of 4-6 elements; '
+                'a state is non-trivial when some list is non-empty',
+        'assumptions': ASSUME_E1,
+    },
 }
